@@ -19,7 +19,7 @@ impl FeatureNames {
         if let Some(mut params) = feature_parser.get("names") {
             let (vis, name) = params.get_vis_name("names");
 
-            let struct_name = params.get_str_opt("struct");
+            let struct_name = params.get_str_opt("struct_name");
 
             params.finish(Self {
                 enabled: true,
